@@ -671,6 +671,286 @@ theorem unflatten_flatten_values (t : T α) (a b : Nat) (hab : a ≤ b) (hb : b 
 
 /-! ## non-vacuity -/
 
+/-! ## the whole block: `__exit__` never raises for a call that was accepted, and a block that adds no key leaves the original's metadata as it was -/
+
+/-- the WHOLE block, for every spelling the binder accepts (positional / keyword / mixed, negative dims), every rank and every edit list that
+is itself accepted: `with td.transpose(...) as y: <edits>` never raises at exit, and with value-only edits the original's metadata is unchanged.
+(glues `transpose_reverse_reads_every_spelling`, the binder on the call `_reverse_transpose` builds, `transpose_inverse_shape` and the write-back) -/
+theorem transpose_block_never_raises (c : Call) (edits : List Edit) (s : St) (y : Yielded) (y' : St)
+    (hf : fwd "transpose" c s = .ok y) (he : applyEdits y.st edits = .ok y') :
+    (∃ r, withBlock "transpose" c edits s = .ok r) ∧
+    ((∀ e ∈ edits, e = Edit.value) → withBlock "transpose" c edits s = .ok s) := by
+  obtain ⟨f, hop, hap⟩ := fwd_split _ _ _ _ hf
+  obtain ⟨d0, d1, rfl⟩ := toOp_transpose_shape c f hop
+  obtain ⟨hres, _⟩ := applyFwd_shape_res _ s y hap
+  refine block_total_of_inverse "transpose" c edits s y y' _ (.transpose d0 d1) "transpose" ⟨[.int d0, .int d1], []⟩
+    (by simp) hop hap he (fun out _ => transpose_reverse_reads_every_spelling c d0 d1 y' out hop)
+    (by decide) (toOp_transpose_pos d0 d1) (fun nm2 => ?_) rfl
+  exact transpose_inverse_shape d0 d1 s.bs y.st.bs s.names nm2 hres
+
+/-- same for `unsqueeze` (inverse `squeeze(d)` with the same, possibly negative, `d`) -/
+theorem unsqueeze_block_never_raises (c : Call) (edits : List Edit) (s : St) (y : Yielded) (y' : St)
+    (hf : fwd "unsqueeze" c s = .ok y) (he : applyEdits y.st edits = .ok y') :
+    (∃ r, withBlock "unsqueeze" c edits s = .ok r) ∧
+    ((∀ e ∈ edits, e = Edit.value) → withBlock "unsqueeze" c edits s = .ok s) := by
+  obtain ⟨f, hop, hap⟩ := fwd_split _ _ _ _ hf
+  have hsh : ∃ d, f = .shape (.unsqueeze d) := by
+    simp only [toOp, bind, Except.bind] at hop
+    repeat' split at hop
+    all_goals first | (cases hop; done) | (simp only [pure, Except.pure, Except.ok.injEq] at hop; exact ⟨_, hop.symm⟩)
+  obtain ⟨d, rfl⟩ := hsh
+  obtain ⟨hres, _⟩ := applyFwd_shape_res _ s y hap
+  refine block_total_of_inverse "unsqueeze" c edits s y y' _ (.squeeze (some d)) "squeeze" ⟨[.int d], []⟩
+    (by simp) hop hap he (fun out _ => unsqueeze_reverse_reads_every_spelling c d y' out hop)
+    (by decide) rfl (fun nm2 => ?_) rfl
+  exact unsqueeze_inverse_shape d s.bs y.st.bs s.names nm2 hres
+
+/-- same for `squeeze(d)`: an effective squeeze is undone by `unsqueeze(d)`; a no-op squeeze yielded the original itself and exit returns it
+(fix c836249). (`squeeze()` without a dim is rejected by `_reverse_squeeze` by design and is outside this statement.) -/
+theorem squeeze_block_never_raises (c : Call) (edits : List Edit) (s : St) (y : Yielded) (y' : St) (d : Int)
+    (hop : toOp "squeeze" c = .ok (.shape (.squeeze (some d))))
+    (hf : fwd "squeeze" c s = .ok y) (he : applyEdits y.st edits = .ok y') :
+    (∃ r, withBlock "squeeze" c edits s = .ok r) ∧
+    ((∀ e ∈ edits, e = Edit.value) → withBlock "squeeze" c edits s = .ok s) := by
+  obtain ⟨f, hop', hap⟩ := fwd_split _ _ _ _ hf
+  rw [hop] at hop'
+  simp only [Except.ok.injEq] at hop'
+  subst hop'
+  obtain ⟨hres, hpr, hrec, hself, _⟩ := applyFwd_shape_res _ s y hap
+  simp only [opMeta] at hres
+  by_cases hs : y.isSelf = true
+  · -- a no-op squeeze returned the original itself: `if out is self: return self`
+    have hw : withBlock "squeeze" c edits s = .ok y' := by
+      unfold withBlock
+      simp only [fwd, hop, hap, he, bind, Except.bind, hrec]
+      unfold exitBlock
+      simp only [not_true_eq_false, if_false, squeeze_reverse_reads_every_spelling c d y' _ hop, bind, Except.bind, hs,
+        and_self, if_true, pure, Except.pure]
+    refine ⟨⟨_, hw⟩, fun hv => ?_⟩
+    have := applyEdits_values edits y.st hv
+    rw [this] at he
+    rw [hw, ← Except.ok.inj he, hself hs]
+  · -- an effective squeeze: the dim had size 1
+    have hres' := hres
+    rw [squeezeMeta_shape] at hres'
+    rcases hd : normDim s.bs.length d with _ | i
+    · simp [hd] at hres'
+    have h1 : s.bs.getD i 0 = 1 := by
+      -- otherwise `_squeeze` returns `self`
+      unfold applyFwd at hap
+      simp only [opMeta, squeezeMeta, maybeCorrectNegDim, bind, Except.bind, pure, Except.pure] at hap
+      obtain ⟨hdi, hi⟩ := normDim_some hd
+      have hnn : ¬ ((i : Int) < 0 ∨ (i : Int) ≥ s.bs.length) := by omega
+      by_cases h1 : s.bs.getD i 0 = 1
+      · exact h1
+      · simp only [hdi, hnn, if_false, Int.toNat_natCast] at hap
+        rw [if_pos (show s.bs.getD i 0 ≠ 1 from h1)] at hap
+        simp only [Except.ok.injEq] at hap
+        rw [← hap] at hs
+        exact absurd rfl hs
+    obtain ⟨hfwd, hinvs⟩ := squeeze_inverse_shape d s.bs s.names y'.names i hd h1
+    have hyb : y.st.bs = s.bs.eraseIdx i := by
+      rw [hfwd] at hres; simpa using hres.symm
+    refine block_total_of_inverse "squeeze" c edits s y y' _ (.unsqueeze d) "unsqueeze" ⟨[.int d], []⟩
+      (by simp [hs]) hop hap he (fun out _ => squeeze_reverse_reads_every_spelling c d y' out hop)
+      (by decide) rfl (fun nm2 => ?_) rfl
+    rw [hyb]
+    exact (squeeze_inverse_shape d s.bs s.names nm2 i hd h1).2
+
+/-- same for `flatten` (inverse `unflatten(start, out.batch_size[start:end+1])`), any spelling incl. the defaults and negative dims -/
+theorem flatten_block_never_raises (c : Call) (edits : List Edit) (s : St) (y : Yielded) (y' : St)
+    (hf : fwd "flatten" c s = .ok y) (he : applyEdits y.st edits = .ok y') :
+    (∃ r, withBlock "flatten" c edits s = .ok r) ∧
+    ((∀ e ∈ edits, e = Edit.value) → withBlock "flatten" c edits s = .ok s) := by
+  obtain ⟨f, hop, hap⟩ := fwd_split _ _ _ _ hf
+  have hsh : ∃ a b, f = .shape (.flatten a b) := by
+    simp only [toOp, bind, Except.bind] at hop
+    repeat' split at hop
+    all_goals first | (cases hop; done) | (simp only [pure, Except.pure, Except.ok.injEq] at hop; exact ⟨_, _, hop.symm⟩)
+  obtain ⟨a, b, rfl⟩ := hsh
+  obtain ⟨hres, _⟩ := applyFwd_shape_res _ s y hap
+  simp only [opMeta] at hres
+  have hres' := hres
+  rw [flattenMeta_shape] at hres'
+  rcases ha : normDim s.bs.length a with _ | i
+  · simp [ha] at hres'
+  rcases hb : normDim s.bs.length b with _ | j
+  · simp [ha, hb] at hres'
+  simp only [ha, hb] at hres'
+  have hij : i < j := by
+    by_cases h : i < j
+    · exact h
+    · simp [h] at hres'
+  obtain ⟨hai, hi⟩ := normDim_some ha
+  obtain ⟨hbj, hj⟩ := normDim_some hb
+  have hsl : pySlice s.bs (i : Int) (j : Int) = (s.bs.drop i).take (j + 1 - i) := by
+    unfold pySlice
+    have h1 : ¬ ((i : Int) < 0 ∨ (j : Int) + 1 ≤ (i : Int)) := by omega
+    rw [if_neg h1]
+    have h2 : ((j : Int) + 1 - (i : Int)).toNat = j + 1 - i := by omega
+    simp [h2]
+  have hne : (s.bs.drop i).take (j + 1 - i) ≠ [] := by
+    intro h0; have := congrArg List.length h0; simp at this; omega
+  refine block_total_of_inverse "flatten" c edits s y y' _
+    (.unflatten (i : Int) (natsToInts ((s.bs.drop i).take (j + 1 - i)))) "unflatten"
+    ⟨[.int (i : Int), .ints (natsToInts ((s.bs.drop i).take (j + 1 - i)))], []⟩
+    (by simp) hop hap he (fun out ho => ?_) (by decide) rfl (fun nm2 => ?_) ?_
+  · rw [flatten_reverse_reads_every_spelling c a b y' out hop, ho]
+    simp only [normNeg, hai, hbj, hsl, natsToInts]
+  · exact flatten_inverse_shape a b s.bs y.st.bs s.names nm2 i j ha hb hres
+  · cases hl : (s.bs.drop i).take (j + 1 - i) with
+    | nil => exact absurd hl hne
+    | cons x xs => simp [emptyUnflatten, natsToInts]
+
+/-- same for a valid `unflatten(d, sizes)` with resolved sizes multiplying to the dim (what the leaf calls enforce): two or more sizes → `flatten`
+back; exactly one size → the yielded object is written back as it is (fix 24799c4) -/
+theorem unflatten_block_never_raises (c : Call) (edits : List Edit) (s : St) (y : Yielded) (y' : St)
+    (d : Int) (sz : Shape) (i : Nat)
+    (hop : toOp "unflatten" c = .ok (.shape (.unflatten d (natsToInts sz))))
+    (hd : normDim s.bs.length d = some i) (hk : 1 ≤ sz.length) (hprod : prod sz = s.bs.getD i 0)
+    (hf : fwd "unflatten" c s = .ok y) (he : applyEdits y.st edits = .ok y') :
+    (∃ r, withBlock "unflatten" c edits s = .ok r) ∧
+    ((∀ e ∈ edits, e = Edit.value) → withBlock "unflatten" c edits s = .ok s) := by
+  obtain ⟨f, hop', hap⟩ := fwd_split _ _ _ _ hf
+  rw [hop] at hop'
+  simp only [Except.ok.injEq] at hop'
+  subst hop'
+  obtain ⟨hres, hpr, hrec, hself, _, hkeys⟩ := applyFwd_shape_res _ s y hap
+  simp only [opMeta] at hres
+  obtain ⟨hdi, hi⟩ := normDim_some hd
+  by_cases h1 : sz.length = 1
+  · -- a single size: `_reverse_unflatten` writes the yielded object back as it is
+    obtain ⟨hbs', _, _⟩ := applyEdits_frame edits y.st y' he
+    have hyb : y.st.bs = s.bs := by
+      rw [unflattenMeta_shape, hd] at hres
+      simp only [Option.some.injEq] at hres
+      rw [← hres]
+      match sz, h1 with
+      | [k], _ =>
+        simp only [prod, Nat.mul_one] at hprod
+        rw [hprod]; exact take_getD_drop s.bs i hi
+    have hout : (if y.isSelf = true then y' else s).bs = s.bs := by
+      by_cases hs : y.isSelf = true
+      · simp only [hs, if_true, hbs', hself hs]
+      · simp only [hs]; rfl
+    have hw : withBlock "unflatten" c edits s = writeBack (if y.isSelf = true then y' else s) y' := by
+      unfold withBlock
+      simp only [fwd, hop, hap, he, bind, Except.bind, hrec]
+      unfold exitBlock
+      have hr := unflatten_reverse_reads_every_spelling c d (natsToInts sz) y' (if y.isSelf = true then y' else s) hop
+      rw [natsToInts_length, if_pos h1] at hr
+      simp only [not_true_eq_false, if_false, hr, bind, Except.bind, show ("unflatten" : String) ≠ "squeeze" by decide, false_and]
+    refine ⟨by rw [hw]; exact writeBack_ok _ _ (by rw [hbs', hyb, hout]), fun hv => ?_⟩
+    have hy' : y' = y.st := by
+      have := applyEdits_values edits y.st hv
+      rw [this] at he; exact (Except.ok.inj he).symm
+    have hos : (if y.isSelf = true then y' else s) = s := by
+      by_cases hs : y.isSelf = true
+      · simp only [hs, if_true, hy', hself hs]
+      · simp only [hs]; rfl
+    rw [hw, hos]
+    exact writeBack_same_keys s y' (by rw [hbs', hyb]) (by rw [hy', hkeys])
+  · have hk2 : 2 ≤ sz.length := by omega
+    refine block_total_of_inverse "unflatten" c edits s y y' _
+      (.flatten (i : Int) ((i : Int) + sz.length - 1)) "flatten"
+      ⟨[.int (i : Int), .int ((i : Int) + sz.length - 1)], []⟩
+      (by simp) hop hap he (fun out ho => ?_) (by decide) rfl (fun nm2 => ?_) rfl
+    · rw [unflatten_reverse_reads_every_spelling c d (natsToInts sz) y' out hop, ho, natsToInts_length, if_neg h1]
+      simp only [normNeg, hdi]
+    · exact unflatten_inverse_shape d sz s.bs y.st.bs s.names nm2 i hd hk2 hprod hres
+
+/-- same for `view` (inverse `view(out.batch_size)`), any spelling incl. `size=` and `-1` entries -/
+theorem view_block_never_raises (c : Call) (edits : List Edit) (s : St) (y : Yielded) (y' : St)
+    (hf : fwd "view" c s = .ok y) (he : applyEdits y.st edits = .ok y') :
+    (∃ r, withBlock "view" c edits s = .ok r) ∧
+    ((∀ e ∈ edits, e = Edit.value) → withBlock "view" c edits s = .ok s) := by
+  obtain ⟨f, hop, hap⟩ := fwd_split _ _ _ _ hf
+  obtain ⟨l, rfl⟩ := toOp_view_shape c f hop
+  refine block_total_of_inverse "view" c edits s y y' _ (.view (natsToInts s.bs)) "view" ⟨[.ints (natsToInts s.bs)], []⟩
+    (by simp) hop hap he (fun out ho => by simp [reverse, ho, natsToInts])
+    (by decide) rfl (fun nm2 => ?_) rfl
+  exact viewMeta_shape true s.bs y.st.bs nm2
+
+/-- same for `permute`, every spelling (varargs / one list / `dims=`), negative dims: the yielded object is permuted back by `argsort` -/
+theorem permute_block_never_raises (c : Call) (edits : List Edit) (s : St) (y : Yielded) (y' : St)
+    (hf : fwd "permute" c s = .ok y) (he : applyEdits y.st edits = .ok y') :
+    (∃ r, withBlock "permute" c edits s = .ok r) ∧
+    ((∀ e ∈ edits, e = Edit.value) → withBlock "permute" c edits s = .ok s) := by
+  obtain ⟨f, hop, hap⟩ := fwd_split _ _ _ _ hf
+  have hsh : ∃ dims, f = .shape (.permute dims) := by
+    simp only [toOp, bind, Except.bind] at hop
+    repeat' split at hop
+    all_goals first | (cases hop; done) | (simp only [pure, Except.pure, Except.ok.injEq] at hop; exact ⟨_, hop.symm⟩)
+  obtain ⟨dims, rfl⟩ := hsh
+  obtain ⟨hres, _⟩ := applyFwd_shape_res _ s y hap
+  simp only [opMeta] at hres
+  obtain ⟨p, hdl, hp, hyb⟩ := permuteMeta_ok_perm dims s.bs y.st.bs s.names hres
+  obtain ⟨hbs', _, _⟩ := applyEdits_frame edits y.st y' he
+  have hlen : y'.bs.length = s.bs.length := by
+    rw [hbs', hyb, List.length_map]; simpa using hp.length_eq
+  refine block_total_of_inverse "permute" c edits s y y' _ (.permute (argsort (natsToInts p))) "permute"
+    ⟨[.ints (argsort (natsToInts p))], []⟩
+    (by simp) hop hap he (fun out _ => ?_) (by decide) rfl (fun nm2 => ?_) rfl
+  · rw [permute_reverse_reads_every_spelling c dims y' out hop, hlen, hdl]
+  · simp only [opMeta]
+    rw [hyb]
+    exact permute_inverse_shape p s.bs nm2 hp
+
+/-- `with td.flatten_keys(sep) as y:` with value-only edits leaves the key structure (and everything else) of the original unchanged, for every
+spelling, when no key component contains the one-character separator -/
+theorem flatten_keys_block_identity (c : Call) (ch : Char) (edits : List Edit) (s : St) (y : Yielded)
+    (hop : toOp "flatten_keys" c = .ok (.flattenKeys [ch]))
+    (hns : NoSepInKeys ch s.keys) (hv : validKeys s.keys = true)
+    (hf : fwd "flatten_keys" c s = .ok y) (hev : ∀ e ∈ edits, e = Edit.value) :
+    withBlock "flatten_keys" c edits s = .ok s := by
+  obtain ⟨f, hop', hap⟩ := fwd_split _ _ _ _ hf
+  rw [hop] at hop'
+  simp only [Except.ok.injEq] at hop'
+  subst hop'
+  unfold applyFwd at hap
+  simp only [] at hap
+  split at hap
+  · cases hap
+  · rename_i flat hfl
+    simp only [Except.ok.injEq] at hap
+    subst hap
+    have hinv := flatten_keys_inverse ch s.keys flat hns hv hfl
+    unfold withBlock
+    simp only [fwd, hop, applyFwd, hfl, bind, Except.bind, applyEdits_values edits _ hev]
+    unfold exitBlock
+    simp only [not_true_eq_false, if_false, flatten_keys_reverse_reads_every_spelling c [ch] _ _ hop, bind, Except.bind,
+      show ("flatten_keys" : String) ≠ "squeeze" by decide, false_and, Bool.false_eq_true]
+    have hto : toOp "unflatten_keys" ⟨[.str [ch]], []⟩ = .ok (.unflattenKeys [ch]) := rfl
+    simp only [fwd, hto, applyFwd, hinv, bind, Except.bind]
+    exact writeBack_same_keys s _ rfl rfl
+
+/-- `with td.unflatten_keys(sep) as y:` with value-only edits leaves a flat original unchanged -/
+theorem unflatten_keys_block_identity (c : Call) (ch : Char) (edits : List Edit) (s : St) (y : Yielded)
+    (hop : toOp "unflatten_keys" c = .ok (.unflattenKeys [ch]))
+    (hflat : FlatKeys s.keys) (hnd : s.keys.eraseDups.length = s.keys.length)
+    (hf : fwd "unflatten_keys" c s = .ok y) (hev : ∀ e ∈ edits, e = Edit.value) :
+    withBlock "unflatten_keys" c edits s = .ok s := by
+  obtain ⟨f, hop', hap⟩ := fwd_split _ _ _ _ hf
+  rw [hop] at hop'
+  simp only [Except.ok.injEq] at hop'
+  subst hop'
+  unfold applyFwd at hap
+  simp only [] at hap
+  split at hap
+  · cases hap
+  · rename_i nested hfl
+    simp only [Except.ok.injEq] at hap
+    subst hap
+    have hinv := unflatten_keys_inverse ch s.keys nested hflat hnd hfl
+    unfold withBlock
+    simp only [fwd, hop, applyFwd, hfl, bind, Except.bind, applyEdits_values edits _ hev]
+    unfold exitBlock
+    simp only [not_true_eq_false, if_false, unflatten_keys_reverse_reads_every_spelling c [ch] _ _ hop, bind, Except.bind,
+      show ("unflatten_keys" : String) ≠ "squeeze" by decide, false_and, Bool.false_eq_true]
+    have hto : toOp "flatten_keys" ⟨[.str [ch]], []⟩ = .ok (.flattenKeys [ch]) := rfl
+    simp only [fwd, hto, applyFwd, hinv, bind, Except.bind]
+    exact writeBack_same_keys s _ rfl rfl
+
 example : (withBlock "transpose" ⟨[], [("dim0", .int 1), ("dim1", .int (-1))]⟩ [.addKey [['z']]]
       ⟨[1, 2, 3], none, [[['a']]], false⟩).toOption = some ⟨[1, 2, 3], none, [[['a']], [['z']]], false⟩ := by decide
 example : (fwd "flatten_keys" ⟨[], [("separator", .str ['_'])]⟩ ⟨[2], none, [[['n'], ['b']]], true⟩).toOption.map (·.st.keys)
@@ -681,5 +961,9 @@ example : argsort (natsToInts [2, 0, 1]) = natsToInts (invPerm [2, 0, 1]) := arg
 example : invPerm [2, 0, 1] = [1, 2, 0] := by decide
 example : [2, 0, 1].Perm (List.range 3) := by decide
 example : (withBlock "lock_" ⟨[], []⟩ [.value] ⟨[2], none, [[['a']]], false⟩).toOption = some ⟨[2], none, [[['a']]], false⟩ := by decide
+-- the hypotheses of the block theorems are met: default spelling, no-op squeeze with an added key, single-size unflatten with a negative dim
+example : (withBlock "flatten" ⟨[], []⟩ [.value] ⟨[2, 3], none, [[['a']]], false⟩).toOption = some ⟨[2, 3], none, [[['a']]], false⟩ := by decide
+example : (withBlock "squeeze" ⟨[.int 0], []⟩ [.addKey [['z']]] ⟨[2, 3], none, [[['a']]], false⟩).toOption = some ⟨[2, 3], none, [[['a']], [['z']]], false⟩ := by decide
+example : (withBlock "unflatten" ⟨[.int (-1)], [("unflattened_size", .ints [3])]⟩ [.addKey [['z']]] ⟨[2, 3], none, [[['a']]], false⟩).toOption = some ⟨[2, 3], none, [[['a']], [['z']]], false⟩ := by decide
 
 end TdVerif.Props.C17
